@@ -395,15 +395,55 @@ class CompGen:
         rnd.shuffle(members)
         return {"defs": defs, "branches": members, "tags": sorted(self.tags)}
 
+    def string_format_composition(self):
+        """formatted string members (the six asserted string formats of convert.rs): the same format, `ip` with its
+        refinements `ipv4` / `ipv6` in every position, a format next to unformatted strings, and disjoint formats
+        (unsatisfiable); inline, via `$ref`, and on a property shared by object members.  Kept out: integer-width
+        formats and annotation-only formats next to another format (finding C09-F12: any two different formats are
+        `unsatisfiable` for merge_so_format)."""
+        rnd = self.rnd
+        self.tags.add("top-strfmt")
+        group = self.pick([["ip", "ipv4"], ["ip", "ipv6"], ["ip", "ipv6"], ["ip", None], ["ipv6", None], ["uuid", "uuid"],
+                           ["date", None], ["date-time", "date-time"], ["ipv4", "ipv6"], ["uuid", "date"], ["date", "date-time"],
+                           ["ip", "ipv4", "ipv6"]])
+        self.tags.add("strfmt-" + "+".join(str(x) for x in group))
+        n = self.pick([2, 2, 3, 3])
+        fmts = [group[i % len(group)] if i < len(group) else self.pick(group) for i in range(n)]
+        rnd.shuffle(fmts)
+        def mk(f):
+            m = {"type": "string"}
+            if f:
+                m["format"] = f
+            return m
+        members = [mk(f) for f in fmts]
+        defs = {}
+        mode = rnd.random()
+        if mode < 0.3:
+            self.tags.add("strfmt-on-property")
+            out = []
+            for i, m in enumerate(members):
+                o = {"type": "object", "properties": {"addr": m}}
+                if i == 0 or rnd.random() < 0.3:
+                    o["required"] = ["addr"]
+                out.append(o)
+            members = out
+        if rnd.random() < 0.4:
+            defs["F0"] = members[0]
+            members[0] = {"$ref": "#/definitions/F0"}
+            self.tags.add("ref-member")
+        return {"defs": defs, "branches": members, "tags": sorted(self.tags)}
+
     def scalar_composition(self, n):
         """type / enum restrictions and array item schemas at the top level."""
         rnd = self.rnd
         self.tags.add("non-object")
         self.tuple_single = False
         self.tuple_closed = False
-        fam = self.pick(["types", "enum", "array", "tuple", "tuple", "numenum", "numenum"])
+        fam = self.pick(["types", "enum", "array", "tuple", "tuple", "numenum", "numenum", "strfmt", "strfmt"])
         if fam == "numenum":
             return self.numeric_enum_composition()
+        if fam == "strfmt":
+            return self.string_format_composition()
         self.tags.add("top-" + fam)
         out = []
         defs = {}
@@ -687,6 +727,20 @@ def candidates(seed, comp):
                         w["zz%d" % i] = fill
                         i += 1
                     add(w, "size:%d" % t)
+    # sample strings of every asserted string format (valid and invalid ones) when a `format` occurs
+    if '"format"' in json.dumps([comp["branches"], comp["defs"]]):
+        on_prop = set()
+        for b in comp["branches"]:
+            rb = resolve(comp["defs"], b)
+            if isinstance(rb, dict):
+                on_prop |= {k for k, ps in (rb.get("properties") or {}).items() if isinstance(ps, dict) and "format" in ps}
+        for fmt, (good, bad) in sorted(schemagen.FORMAT_SAMPLES.items()):
+            for sv in good + bad[:2]:
+                add(sv, "format-sample")
+                for k in sorted(on_prop):
+                    add({k: sv}, "format-sample")
+        for iv in (5, 300, -1, 2 ** 40):
+            add(iv, "format-sample")
     # every enum / const literal that occurs in the operands (merged-set semantics: a literal valid against all
     # operands must be valid against the merge result)
     def literals(x, depth=0):
@@ -881,6 +935,25 @@ def finding_for(ctx, comp, what, kw_instance=None):
                     return any(has_empty(x) for x in v.values())
                 return False
             if inst is not None and has_empty(inst) and items_meet:
+                return f
+        if cls == "distinct-formats-never":
+            ASSERTED = {"uuid", "date", "date-time", "ip", "ipv4", "ipv6"}
+            fm = []
+
+            def fmts(x, path=()):
+                if isinstance(x, dict):
+                    if isinstance(x.get("format"), str):
+                        fm.append((path, x["format"]))
+                    for k, pv in (x.get("properties") or {}).items():
+                        fmts(pv, path + (k,))
+            for b in br:
+                fmts(b)
+            hit = False
+            for (p1, f1), (p2, f2) in itertools.combinations(fm, 2):
+                if p1 == p2 and f1 != f2 and {f1, f2} not in ({"ip", "ipv4"}, {"ip", "ipv6"}) and \
+                        not (f1 in ASSERTED and f2 in ASSERTED):
+                    hit = True
+            if hit and what in ("valid-instance-rejected", "satisfiable-but-never"):
                 return f
         if cls == "integral-double-enum-literal-at-integer":
             def lits(x):
@@ -1129,6 +1202,32 @@ def run(ctx):
                        % (len(rjobs), kept), not rbad, json.dumps(rbad[:3], default=str)[:2000])
         except Exception as e:  # noqa
             ctx.oblige("roughly table evaluates", False, str(e)[-2000:])
+
+    # ---- (a6) merge_so_format: ALL ordered pairs of {absent, every format convert.rs / merge.rs name, one unknown}
+    if have_model:
+        try:
+            FT = [None, "ip", "ipv4", "ipv6", "uuid", "date", "date-time", "int8", "uint8", "int32", "int64", "uint64",
+                  "float", "double", "email"]
+            fjobs = [({}, [({"format": x} if x else {}), ({"format": y} if y else {})]) for x in FT for y in FT]
+            freal = [real_canon(r) for r in vlib.run_bin("c09", [{"op": "merge", "schemas": sc, "defs": d} for d, sc in fjobs])]
+            if emul == "format-drops-ipv6-ip":
+                freal = [("never",) if sc == [{"format": "ipv6"}, {"format": "ip"}] else r for (d, sc), r in zip(fjobs, freal)]
+            fmod = model_merge("c09ft-" + ctx.tier, fjobs)
+            fbad = [{"formats": [sc[0].get("format"), sc[1].get("format")], "real": a, "model": b}
+                    for (d, sc), a, b in zip(fjobs, freal, fmod)
+                    if a != (b if b[0] != "ok" else ("ok", canon_schema(strip_frac(b[1]))))]
+            table = {(sc[0].get("format"), sc[1].get("format")): a for (d, sc), a in zip(fjobs, freal)}
+            asym = [{"formats": [x, y], "x,y": table[(x, y)], "y,x": table[(y, x)]}
+                    for x in FT for y in FT if str(x) < str(y) and table[(x, y)] != table[(y, x)]]
+            ctx.coverage["format_table"] = {"ordered_pairs": len(fjobs), "mismatches": len(fbad), "asymmetric_pairs": len(asym),
+                                            "never": len([1 for a in freal if a[0] == "never"])}
+            ctx.oblige("correspondence K1 (merge_so_format): Algo/Merge.v merge_fmt = verif::merge_all on all %d ordered pairs of "
+                       "%d formats (absent, ip, ipv4, ipv6, uuid, date, date-time, integer widths, float, double, one unknown)"
+                       % (len(fjobs), len(FT)), not fbad, json.dumps(fbad[:4])[:1500])
+            ctx.oblige("merge_so_format is symmetric: (x, y) and (y, x) give the same outcome for all %d unordered pairs"
+                       % (len(FT) * (len(FT) - 1) // 2), not asym, json.dumps(asym[:4])[:1500])
+        except Exception as e:  # noqa
+            ctx.oblige("format table evaluates", False, str(e)[-2000:])
 
     # ---- (a3) the reduced validator: exhaustive table against the model and against draft-07
     vt_bad, vt_diffs, vt_known = [], [], []
